@@ -1,6 +1,7 @@
 package extract
 
 import (
+	"fmt"
 	"go/ast"
 	"strings"
 )
@@ -20,26 +21,50 @@ func init() {
 // parseInto translated; Compare's comparison sequence; Slice.Less expression.
 func extractVersion(f *Facts) {
 	b := f.out("Version")
+	f.curDir, f.helperOut = "version", b
+	defer func() { f.curDir, f.helperOut = "", nil }()
 	known := map[string]bool{}
+	// Every name the tie theorems mention is always defined: a function that cannot be read is
+	// emitted as a stub together with `avail_<name> := false`, and its tie theorem (stated under
+	// the hypothesis `avail_<name> = true`) holds trivially - the fact is then "unavailable",
+	// which escalates the correspondence stream instead of breaking the build.
+	emit := func(name, ret string, text string, ok bool) {
+		if ok {
+			b.WriteString(text)
+			fmt.Fprintf(b, "def avail_%s : Bool := true\n\n", name)
+			known[name] = true
+			return
+		}
+		stub := "false"
+		if ret == "Int" {
+			stub = "0"
+		}
+		fmt.Fprintf(b, "def %s (_ : Int) : %s := %s\ndef avail_%s : Bool := false\n\n", name, ret, stub, name)
+	}
 	for _, name := range []string{"cisdigit", "cisalpha", "order"} {
 		id := "version." + name + ":translated"
+		ret := "Bool"
+		if name == "order" {
+			ret = "Int"
+		}
 		fd := f.funcDecl("version", name)
 		if fd == nil {
 			f.fail(id, "function not found")
+			emit(name, ret, "", false)
 			continue
 		}
 		var tmp strings.Builder
 		if err := f.translateFunc(&tmp, name, fd.Type, fd.Body, known); err != nil {
 			f.fail(id, err.Error())
+			emit(name, ret, "", false)
 			continue
 		}
-		b.WriteString(tmp.String())
-		known[name] = true
+		emit(name, ret, tmp.String(), true)
 		f.ok(id)
 	}
 	// alphabet closures
 	pi := f.funcDecl("version", "parseInto")
-	found := map[string]bool{}
+	found := map[string]string{}
 	if pi != nil {
 		ast.Inspect(pi.Body, func(n ast.Node) bool {
 			ce, ok := n.(*ast.CallExpr)
@@ -64,19 +89,19 @@ func extractVersion(f *Facts) {
 				f.fail("version.parseInto:"+name, err.Error())
 				return true
 			}
-			if known["cisdigit"] && known["cisalpha"] {
-				b.WriteString(tmp.String())
-				found[name] = true
-				f.ok("version.parseInto:" + name)
-			}
+			found[name] = tmp.String()
+			f.ok("version.parseInto:" + name)
 			return true
 		})
 	}
 	for _, n := range []string{"rejectVersion", "rejectRevision"} {
-		if !found[n] {
-			if _, ok := f.Status["version.parseInto:"+n]; !ok {
-				f.fail("version.parseInto:"+n, "alphabet closure not found")
-			}
+		if text, ok := found[n]; ok {
+			emit(n, "Bool", text, true)
+			continue
+		}
+		emit(n, "Bool", "", false)
+		if _, ok := f.Status["version.parseInto:"+n]; !ok {
+			f.fail("version.parseInto:"+n, "alphabet closure not found")
 		}
 	}
 }
